@@ -32,6 +32,19 @@ CLAIMED = {
               "slice start/stop values outside the menu, boolean/None indices and >1 list index are outside; quick tier "
               "pins some axes' entries by VERIF_SEED for 4-D/5-D"),
         design_ref="DESIGN.md §5 C03"),
+    "C04": dict(
+        engine="S",
+        technique="term-valued symbolic execution of the real DirectPtychography._preprocess/reconstruct on a symbolic bright-field stack (torch via __torch_function__); batch invariance, linearity, sub-mask recombination and the analytic parallax cases decided by z3 with a float tolerance",
+        text=("bounded model checking by symbolic execution over all bright-field stack values (scan 4x4, masks of 3-5 pixels on a 4x4 "
+              "detector): for each of the five kernels the corrected stack is the same for every batch size 1..num_bf and is additive "
+              "and homogeneous in the stack; for ssb, prlx, icom the aperture-weighted reconstructions of two complementary sub-masks "
+              "sum to the full-mask result; zero-aberration parallax equals the sum of mean-subtracted images over the aperture "
+              "weight, and with defocus / astigmatism / rotation the same sum after translating image i by grad chi(k_i)/2pi "
+              "(translation written independently as a Fourier phase ramp)"),
+        note=("probe-side quantities are the float32 values the real code computes (they do not depend on the stack), so equalities "
+              "are asked with tolerance 2e-5 for stack values in [-1,1]; upsampling 2 only in the thorough tier, upsampling 3, "
+              "larger scans, contrast-transfer sign flipping, noise and hyper-parameter optimisation are outside"),
+        design_ref="DESIGN.md §5 C04"),
     "C06": dict(
         engine="S",
         technique="term-valued symbolic execution of the real Dataset.bin/fourier_resample/pad/crop NumPy code (explicit DFT model), identities decided by z3 over all array contents and calibrations; replay on real NumPy",
@@ -191,7 +204,7 @@ CLAIMED = {
 
 NOT_APPLICABLE = {
     "C02": "the claim concerns the library's preprocessing of independently simulated data (curve_fit, rotation search, normalisation) and a strict-inequality statement about a neighbourhood of one numerical point; only the forward chain is encodable and that is already decided operator by operator by C16, so a reduced check would not decide this property (DESIGN.md §6)",
-    "C04": "DirectPtychography.reconstruct and the probe-side aperture/aberration pipeline need a much larger modelled torch surface than was built; not modelled, hence not claimed rather than checked by another technique (DESIGN.md §6)",
+
     "C05": "torch optimiser state, pickle streams and a floating-point optimisation trajectory cannot be encoded for a solver; nothing in the claim is a bounded symbolic statement (DESIGN.md §6)",
     "C07": "oracle is compiled scikit-image code, implementation is the C++ grid_sample kernel over float trigonometry; agreement of two float programs is not decidable by a real-arithmetic encoding (DESIGN.md §6)",
 }
